@@ -24,10 +24,19 @@ did; own percent-decoder, own host/port splitter, own IPv4address / IP-literal r
   for RFC 3986 IPv4address / IP-literal hosts); a URI with a listed defect — among them text next
   to a bracketed literal and a zone identifier that is not unreserved — is rejected with the
   documented error class; any string is either accepted or rejected with exactly
-  MalformedUrlError / IncompleteUrlError.
+  MalformedUrlError / IncompleteUrlError; the three ways of handing a text to a message
+  (`set_request_uri`, the constructor's `uri=`, `copy(uri=)`) agree.
+Raw non-ASCII text is generated for every component on which the code (or urllib / ipaddress
+below it) applies a `str` method: characters that Unicode-wide predicates and mappings
+(`isdigit`, `isalpha`, `isalnum`, `isspace`/`strip`/`split`, `lower`/`upper`/`casefold`, `int()`,
+NFKC) treat like the ASCII character they resemble (table `CONFUSABLE`) are put where the ASCII
+character would mean something: digits of a dotted quad, of a port, of an IPv6 literal; letters of
+scheme and host; dots, colons, brackets, `%`, `@`, blanks.  RFC 3986 gives none of them a meaning:
+such a host is a registered name whose Uri-Host is the text with only A-Z lower-cased.
 """
 import re
 import socket
+import unicodedata
 import urllib.parse
 
 from common import compare, load_corpus, HarnessError
@@ -41,12 +50,17 @@ RULE = ("G/S: option sets built from host kinds (lower-case names over the full 
         "out-of-range/non-numeric ports, user info, fragments, missing scheme/host, dotted quads around "
         "the dec-octet boundaries 0 00 01 9 10 099 100 255 256 0255, bracketed hosts valid and invalid, "
         "with text before/after the brackets and with hostile zone identifiers, leading controls, "
-        "TAB/CR/LF) and arbitrary strings "
+        "TAB/CR/LF; raw non-ASCII look-alikes of digits, letters, dots, colons, brackets, %, @ and blanks "
+        "(table CONFUSABLE: decimal digits of other scripts, superscript/circled/fraction numerals, KELVIN SIGN, "
+        "dotted I, long s, ligatures, fullwidth forms, NFKC-expanding signs, Unicode white space) substituted "
+        "into scheme, quad, name, port, bracketed literal, zone, escapes: every look-alike at every slot in the "
+        "boundary table, random substitutions in the structured stream) and arbitrary strings "
         "(random over a delimiter-heavy alphabet, mutations of valid URIs). Non-trivial: an option "
         "set with a reserved/non-ASCII/empty segment or non-name host; a text that is accepted "
         "and differs from its normal form, or is rejected. Distinct by full input.")
 TRUSTED = ["CPython's urllib.parse and ipaddress are restated in the model (Uri/Split.lean, "
-           "Uri/HostPort.lean, Uri/Ip6.lean), not verified; they are compared on every run",
+           "Uri/HostPort.lean, Uri/Ip6.lean), not verified; they are compared on every run (urlsplit's "
+           "NFKC check as a table of 19 code points, Unicode 15.0)",
            "libc inet_pton as the oracle's notion of IPv6 address identity"]
 ASSUMPTIONS = ["strings are Unicode text (no lone surrogates): str <-> UTF-8 is a bijection",
                "requests on the client side without Proxy-Uri/Proxy-Scheme/Uri-Path-Abbrev; "
@@ -56,8 +70,12 @@ ASSUMPTIONS = ["strings are Unicode text (no lone surrogates): str <-> UTF-8 is 
                "the remote of an option set is what set_request_uri / UndecidedRemote make of a URI "
                "authority (an application that builds a remote with delimiters in the zone "
                "identifier of its literal by hand gets them back verbatim)",
-               "a netloc with raw non-ASCII characters is outside the model (urllib's NFKC check "
-               "and Unicode lower-casing); such inputs are judged by the oracle only"]
+               "util.hostportsplit called directly with raw non-ASCII text is outside the model (urllib's "
+               ".hostname lower-cases with str.lower()): oracle only (split-join round trip of names that "
+               "str.lower() leaves alone); set_request_uri does not show that lower-casing any more",
+               "str.lower() never turns a non-ASCII character into nothing, an ASCII digit or a dot, and the "
+               "characters whose NFKC form holds / ? # @ : are those of Uri/Split.lean's table: both checked "
+               "against this interpreter's unicodedata over all code points on every run"]
 
 COAP_SCHEMES = ["coap", "coaps", "coap+tcp", "coaps+tcp", "coap+ws", "coaps+ws"]
 DEFAULT_PORT = {"coap": 5683, "coaps": 5684, "coap+tcp": 5683, "coaps+tcp": 5684,
@@ -65,6 +83,9 @@ DEFAULT_PORT = {"coap": 5683, "coaps": 5684, "coap+tcp": 5683, "coaps+tcp": 5684
 UNRESERVED = "abcdefghijklmnopqrstuvwxyzABCDEFGHIJKLMNOPQRSTUVWXYZ0123456789-._~"
 SUB_DELIMS = "!$&'()*+,;="
 DOCUMENTED = ("MalformedUrlError", "IncompleteUrlError")
+# Uri/Split.lean `nfkcDelims` (Unicode 15.0)
+NFKC_DELIMS = {0x2047, 0x2048, 0x2049, 0x2100, 0x2101, 0x2105, 0x2106, 0x2A74, 0xFE13, 0xFE16, 0xFE55, 0xFE56,
+               0xFE5F, 0xFE6B, 0xFF03, 0xFF0F, 0xFF1A, 0xFF1F, 0xFF20}
 
 
 # ---------------------------------------------------------------------------- line protocol
@@ -114,6 +135,21 @@ class Impl:
             return "err:" + type(e).__name__, None
         if m.opt.proxy_uri is not None:
             return "proxy", m
+        return "ok", m
+
+    def set_uri_by(self, how, text):
+        """the same through the constructor's `uri=` argument / through `copy(uri=)` of a fresh message"""
+        try:
+            if how == "ctor":
+                m = self.aiocoap.Message(code=self.aiocoap.GET, uri=text)
+            else:
+                m = self.new().copy(uri=text)
+        except Exception as e:
+            return "err:" + type(e).__name__, None
+        if m.opt.proxy_uri is not None:
+            return "proxy", m
+        if m.remote is None or getattr(m.remote, "hostinfo", None) is None:
+            return "ignored", m               # no destination, no error: the text was not looked at
         return "ok", m
 
     def get_uri(self, m):
@@ -315,6 +351,23 @@ def oracle_text(impl, text, expect=None):
     return ""
 
 
+def oracle_entry_points(impl, text):
+    """`Message(uri=text)` and `copy(uri=text)` are the documented short-hands for
+    `set_request_uri(text)`: same acceptance, same error class, same options"""
+    kind, m = impl.set_uri(text)
+    for how in ("ctor", "copy"):
+        kind2, m2 = impl.set_uri_by(how, text)
+        if kind2 != kind:
+            return "entry points differ on %r: set_request_uri %s, %s %s" % (text, kind, how, kind2)
+        if kind == "ok" and impl.observe(m) != impl.observe(m2):
+            return "entry points differ on %r: set_request_uri %r, %s %r" % (
+                text, impl.observe(m), how, impl.observe(m2))
+        if kind == "proxy" and m.opt.proxy_uri != m2.opt.proxy_uri:
+            return "entry points differ on %r: Proxy-Uri %r, %s %r" % (
+                text, m.opt.proxy_uri, how, m2.opt.proxy_uri)
+    return ""
+
+
 def oracle_resource(impl, res, seen=None):
     """options -> URI -> options for one option set (dict); `seen` maps URI -> option set"""
     m = impl.message_from_opts(res["scheme"], res["hostinfo"], res["uri_host"], None,
@@ -357,7 +410,8 @@ def oracle_resource(impl, res, seen=None):
 
 ALPH_RESERVED = "/?&=%#:@[]+;,!$'()* "
 ALPH_ODD = "\x00\x01\t\n\r\x1f\x7f\"<>\\^`{|}"
-ALPH_BMP = "åæøßЖ中文\u00a0\u2100\u212a\u0130\ufb01\ud7ff\ue000\ufffd"
+ALPH_BMP = ("åæøßЖ中文\u00a0\u2100\u212a\u0130\ufb01\ud7ff\ue000\ufffd"
+            "\u0085\u2028\u3000\u0661\u0967\uff11\u00b2\u2460\uff0f\uff1f\uff03\uff06\uff1d\uff05\uff1a\u017f\u03a3e\u0301")
 ALPH_ASTRAL = "\U0001f600\U00010000\U0010ffff"
 
 
@@ -425,8 +479,10 @@ def gen_name(rng, decoded=True):
             out.append(rng.choice(SUB_DELIMS))
         elif c < 0.85:
             out.append(rng.choice("/?#@%:[] \x00\t\x7f\"\\"))
-        else:
+        elif c < 0.93:
             out.append(rng.choice("åæøßж中\u00a0\U0001f600"))
+        else:
+            out.append(rng.choice(ALL_CONFUSABLES))      # also non-ASCII capitals: only A-Z are lower-cased
     return "".join(out)
 
 
@@ -473,6 +529,13 @@ def o_join(host, port):
     if ":" in host:
         host = "[" + host + "]"
     return host if port is None else "%s:%d" % (host, port)
+
+
+def o_port_text(hostport):
+    """the text after the colon that follows the host of a well-shaped `host[:port]` / `[literal][:port]`
+    (None for anything else: user info, stray or unbalanced brackets)"""
+    mo = re.fullmatch(r"(?:\[[^\[\]@]*\]|[^\[\]@:]*)(?::([^\[\]@]*))?", hostport)
+    return mo.group(1) if mo else None
 
 
 def o_reg_name(host):
@@ -528,7 +591,11 @@ def boundary_resources():
     for name in ["a/b", "a?b", "a#b", "a@b", "a%41", "a%", "a:b", "[a", "a]", "a b", "a\x00b", "a\tb",
                  "é", "a.b", "~", "a!$&'()*+,;=b", "::x", "[::x]", "1.2.3.256", "1..2.3",
                  "[::1", "::1]", "[::1]]", "[[::1]", "[fe80::1%eth0",
-                 "01.2.3.4", "1.2.3.0255", "0000001.2.3.4", "1.2.3.00", "1.2.3.099", "1.2.3.256"] + \
+                 "01.2.3.4", "1.2.3.0255", "0000001.2.3.4", "1.2.3.00", "1.2.3.099", "1.2.3.256",
+                 "\u0661.\u0662.\u0663.\u0664", "1.2.3.\u0664", "\uff11.2.3.4", "1.2.3.\u00b2", "\u2460.2.3.4",
+                 "\u212a", "\u212a.example", "\u0130", "\u00df", "\ufb01", "a\u00a0b", "\u2100", "a\uff1ab", "a\uff0fb",
+                 "\uff3b::1\uff3d", "::\u0661", "fe80::1%eth\u0660", "e\u0301", "\u00e9", "\u03a3\u0391\u03a3", "\u00c4",
+                 "h\uff0e", "\u2028", "\U00010400"] + \
             ["fe80::1%" + z for z in HOSTILE_ZONES_OPT] + ["[::1%" + z + "]" for z in HOSTILE_ZONES_OPT]:
         out.append({"kind": "R", "host_kind": "name", "scheme": "coap",
                     "hostinfo": o_join(o_reg_name(name), 7), "uri_host": name,
@@ -544,6 +611,146 @@ def boundary_resources():
             out.append({"kind": "R", "host_kind": "ip6", "scheme": "coap",
                         "hostinfo": o_join("fe80::1%" + z, 7), "uri_host": None,
                         "path": ["x"], "query": []})
+    return out
+
+
+# --- raw non-ASCII look-alikes -----------------------------------------------------------------
+# Characters that a Unicode-wide `str` method treats like an ASCII character with a meaning in a
+# URI.  RFC 3986 knows ASCII only: in a host every one of them is part of a registered name (and
+# stays as it is: §6.4 lower-cases A-Z), anywhere else it is data or makes the text no URI.
+
+def _digit_family(base):
+    return [chr(base + d) for d in range(10)]
+
+
+# str.isdigit() / isdecimal() / int() accept these as the digit in the key ...
+DECIMAL_FAMILIES = {"arabic-indic": 0x0660, "ext-arabic": 0x06F0, "devanagari": 0x0966, "thai": 0x0E50,
+                    "fullwidth": 0xFF10, "math-bold": 0x1D7CE, "adlam": 0x1E950}
+CONFUSABLE = {str(d): [chr(b + d) for b in DECIMAL_FAMILIES.values()] for d in range(10)}
+# ... and these satisfy isdigit() or isnumeric() although int() refuses them
+for _d, _chars in {"0": "\u2070\u2080\u24ea\u3007", "1": "\u00b9\u2081\u2460\u2776\u2160\u4e00", "2": "\u00b2\u2082\u2461\u00bd",
+                   "3": "\u00b3\u2083\u2462", "4": "\u2074\u2084\u2463\u56db", "5": "\u2075\u2464\u2164", "9": "\u2079\u2468"}.items():
+    CONFUSABLE[_d] += list(_chars)
+# letters: str.lower() / casefold() / NFKC map them to (or from) ASCII letters, or change their length
+CONFUSABLE.update({
+    "k": ["\u212a"], "K": ["\u212a"], "a": ["\uff41", "\u24d0", "\u00aa"], "A": ["\uff21", "\u24b6", "\u212b", "\u00c5"],
+    "i": ["\u0130", "\u0131", "\u2170"], "I": ["\u0130", "\u2160"], "s": ["\u017f", "\u00df", "\u1e9e"], "S": ["\u1e9e", "\u03a3"],
+    "f": ["\ufb01", "\ufb00"], "c": ["\uff43", "\u2102", "\u0441"], "o": ["\uff4f", "\u03bf", "\u2134"], "p": ["\uff50", "\u2119", "\u0440"],
+    "e": ["\uff45", "\u212f", "\u00e9", "e\u0301"], "h": ["\uff48", "\u210e"], "t": ["\uff54"], "w": ["\uff57", "\u02b7"],
+    "d": ["\u01c4", "\u01c5", "\u2146"], "x": ["\u00d7", "\uff58", "\u2179"], "m": ["\u2133", "\uff4d"], "l": ["\u2113", "\uff4c"],
+    "Z": ["\U00010400", "\u13a0", "\u1c90", "\u0416"],
+    # structure: NFKC turns them into the ASCII character (or a text holding it)
+    ".": ["\uff0e", "\u3002", "\u2024", "\uff61", "\u0701"], ":": ["\uff1a", "\ufe55", "\ufe13", "\u2a74", "\u02d0", "\ua789"],
+    "/": ["\uff0f", "\u2100", "\u2105", "\u2044", "\u2215"], "?": ["\uff1f", "\ufe56", "\u2047", "\u2049"], "#": ["\uff03", "\ufe5f"],
+    "@": ["\uff20", "\ufe6b"], "[": ["\uff3b", "\u301a"], "]": ["\uff3d", "\u301b"], "%": ["\uff05", "\ufe6a", "\u066a"],
+    "+": ["\uff0b", "\u207a"], "-": ["\uff0d", "\u2010", "\u2212", "\u00ad"], "&": ["\uff06", "\ufe60"], "=": ["\uff1d", "\u207c"],
+    # white space for str.strip() / split() / isspace() (and format characters that are not)
+    " ": ["\u0085", "\u00a0", "\u1680", "\u2000", "\u2003", "\u2009", "\u200a", "\u2028", "\u2029", "\u202f", "\u205f", "\u3000",
+          "\u001c", "\u001f", "\u200b", "\ufeff", "\u180e"],
+})
+ALL_CONFUSABLES = sorted({c for v in CONFUSABLE.values() for c in v})
+UNI_DIGITS = sorted({c for d in "0123456789" for c in CONFUSABLE[d]})
+UNI_SPACES = CONFUSABLE[" "]
+
+
+def confuse(rng, text, n=1, keep=""):
+    """`text` with up to `n` of its characters that have look-alikes replaced by one of them"""
+    idx = [i for i, c in enumerate(text) if c in CONFUSABLE and c not in keep]
+    out = list(text)
+    for i in rng.sample(idx, min(n, len(idx))):
+        out[i] = rng.choice(CONFUSABLE[out[i]])
+    return "".join(out)
+
+
+def o_ascii_lower(text):
+    return "".join(chr(ord(c) + 32) if "A" <= c <= "Z" else c for c in text)
+
+
+def nfkc_hits_delimiter(text):
+    """urllib refuses an authority whose NFKC form holds a delimiter the text did not have; the property
+    allows a text to be accepted or rejected with a documented error, so nothing is expected there"""
+    return any(c in unicodedata.normalize("NFKC", ch) for ch in text if ord(ch) > 127 for c in "/?#@:")
+
+
+def name_expectation(host_txt, port=None, path=(), query=()):
+    """what §6.4 makes of `coap://<host_txt>…` when host_txt is a registered name"""
+    if nfkc_hits_delimiter(host_txt):
+        return None
+    dec = o_pct_decode(host_txt)
+    if dec is None:
+        return ("reject", "MalformedUrlError", "non-UTF-8 escape in host")
+    return ("accept", "coap", o_ascii_lower(dec), port, list(path), list(query))
+
+
+def boundary_confusables():
+    """every look-alike at every slot where its ASCII original means something"""
+    out = []
+    rej = lambda why: ("reject", "MalformedUrlError", why)
+    quad = ["1", "2", "3", "4"]
+    for ch in UNI_DIGITS + ["\u00bd", "\u2163", "\u56db", "\u0bf0", "\u0f33"]:
+        # one digit of a dotted quad, alone / next to ASCII digits / all four parts
+        for pos in range(4):
+            for part in (ch, "1" + ch, ch + "0"):
+                parts = list(quad)
+                parts[pos] = part
+                h = ".".join(parts)
+                out.append(("coap://%s/" % h, name_expectation(h)))
+        h = ".".join([ch] * 4)
+        out.append(("coap://%s:61616/a?b" % h, name_expectation(h, 61616, ["a"], ["b"])))
+        # the port, an IPv6 literal, the IPv4 tail of one, a zone identifier
+        for port_txt in (ch, "568" + ch, ch + "683"):
+            out.append(("coap://h:%s/" % port_txt, rej("port not a number in 0..65535")))
+            out.append(("coap://[::1]:%s/" % port_txt, rej("port not a number in 0..65535")))
+        for lit in ("::%s", "2001:db8::%s", "::ffff:1.2.3.%s", "%s::1", "fe80::1%%eth%s"):
+            out.append(("coap://[%s]/" % (lit % ch), rej("invalid IP literal / zone")))
+    for fam, base in DECIMAL_FAMILIES.items():
+        d = _digit_family(base)
+        for h in ("%s.%s.%s.%s" % (d[1], d[2], d[3], d[4]), "%s%s.%s.%s.%s" % (d[1], d[0], d[0], d[0], d[1]),
+                  "%s%s%s.%s.%s.%s" % (d[2], d[5], d[5], d[0], d[0], d[0]), "10.0.0." + d[1], d[1] + "0.0.0.1",
+                  "192.168." + d[1] + ".1"):
+            out.append(("coap://%s/" % h, name_expectation(h)))
+            e = name_expectation(h, 5684, ["x"])
+            out.append(("coaps://%s:5684/x" % h, e and ("accept", "coaps") + e[2:]))
+    # letters: the host keeps them (only A-Z are lower-cased), raw or escaped, alone or among ASCII
+    for asc, chars in CONFUSABLE.items():
+        for ch in chars:
+            if asc.isalnum() or asc in ".-+&=%":
+                for h in (ch, "a" + ch + "b", "EX" + ch + ".Example", ch + "%41", "%e2%84%aa" + ch):
+                    out.append(("coap://%s/" % h, name_expectation(h)))
+                    out.append(("coap://%s:7/x" % h, name_expectation(h, 7, ["x"])))
+                esc_ch = "".join("%%%02X" % b for b in ch.encode("utf-8"))
+                out.append(("coap://A%sZ/" % esc_ch, name_expectation("A%sZ" % esc_ch)))
+                # the same character in path and query: kept as it is
+                out.append(("coap://h/%s/x%s?%s=%s" % (ch, ch, ch, ch),
+                            ("accept", "coap", "h", None, [ch, "x" + ch], ["%s=%s" % (ch, ch)])))
+            if asc.isalpha():
+                # a scheme is ASCII letters: with a look-alike there is none (or another one)
+                for t in ("%soap://h/" % ch, "c%sap://h/" % ch, "coap%s://h/" % ch, "coap+%scp://h/" % ch):
+                    out.append((t, ("reject", None, "no (CoAP) scheme")))
+            if asc in ":@[]/?#":
+                # structure look-alikes in the authority: no expectation on acceptance (NFKC check), but
+                # they never act as the delimiter
+                for t in ("coap://h%s7/" % ch, "coap://u%sh/" % ch, "coap://%s::1]/" % ch, "coap://[::1%s/" % ch,
+                          "coap://h%sp" % ch, "coap://[::1%s:7/" % ch, "coap://[fe80::1%%25eth0%s/" % ch):
+                    out.append((t, None))
+                out.append(("coap://h/a%sb?c%sd" % (ch, ch), ("accept", "coap", "h", None, ["a%sb" % ch], ["c%sd" % ch])))
+            if asc == " ":
+                # Unicode white space is not stripped: in front there is no scheme, inside it is data
+                out.append((ch + "coap://h/", ("reject", None, "no scheme") if ord(ch) > 32 else None))
+                out.append(("coap://h/" + ch, ("accept", "coap", "h", None, [ch], [])))
+                out.append(("coap://h/a?" + ch + "b" + ch, ("accept", "coap", "h", None, ["a"], [ch + "b" + ch])))
+                out.append(("coap://h" + ch + "/", name_expectation("h" + ch)))
+                out.append(("coap://" + ch + "h/", name_expectation(ch + "h")))
+                for port_txt in (ch + "1", "1" + ch, ch):
+                    out.append(("coap://h:%s/" % port_txt, rej("port not a number in 0..65535")))
+                out.append(("coap://[::1" + ch + "]/", rej("invalid IP literal")))
+                out.append(("coap://[" + ch + "::1]/", rej("invalid IP literal")))
+    # characters whose lower-/upper-/case-folded or NFKC form has another length or is ASCII
+    for h in ["\u0130", "\u0130stanbul", "\u03a3\u0391\u03a3", "\u00df", "stra\u00dfe", "\ufb01sh", "\u212a.example",
+              "\u212b", "\u00c4", "%C3%84", "%E2%84%AA.example", "\u1e9e", "\u01c5", "\u2126", "\U00010400", "e\u0301", "\u00e9",
+              "\u1100\u1161", "\uac00", "\u2460", "\u3392", "\ufdfa", "xn--\u00e9", "\u0587"]:
+        out.append(("coap://%s/p" % h, name_expectation(h, None, ["p"])))
+        out.append(("COAP://%s:5683/" % h.upper(), name_expectation(h.upper(), 5683)))
     return out
 
 
@@ -629,22 +836,33 @@ def gen_structured_text(rng):
                                else esc(rng, ch) for ch in a)
             if o_is_ipv4address(host_txt):
                 host_txt = "%3" + host_txt[0] + host_txt[1:]
+        if rng.random() < 0.12:
+            host_txt = confuse(rng, host_txt, rng.choice([1, 1, 2, 4]))
+        elif rng.random() < 0.04:
+            host_txt += rng.choice(ALL_CONFUSABLES)
+        if nfkc_hits_delimiter(host_txt):
+            unmodelled = True
         dec = o_pct_decode(host_txt)
         if dec is None:
             defects.append(("MalformedUrlError", "non-UTF-8 escape in host"))
         else:
-            uri_host = dec.translate({c: c + 32 for c in range(65, 91)})
+            uri_host = o_ascii_lower(dec)
     elif k < 0.7:
         host_txt = rng.choice(["1.2.3.4", "255.255.255.255", "0.0.0.0", "256.1.1.1", "1.2.3",
                                "1.2.3.4.5", "1..2.3", "...", "01.2.3.4", "1.2.3.0255", "1.2.3.1000",
                                "1.2.3.4x", "1.2.3.%34", "999999999999.1.1.1", "0000001.2.3.4",
                                gen_ip4(rng), gen_quad(rng), gen_quad(rng)])
+        if rng.random() < 0.25:
+            # digits, dots of other scripts and shapes: never an IPv4address
+            host_txt = confuse(rng, host_txt, rng.choice([1, 1, 2, 7]), keep="%")
+            if nfkc_hits_delimiter(host_txt):
+                unmodelled = True
         # RFC 7252 §6.4 step 5: no Uri-Host only for an IPv4address of RFC 3986 (dec-octets)
         if o_is_ipv4address(host_txt):
             uri_host = None
         else:
             dec = o_pct_decode(host_txt)
-            uri_host = dec.lower()
+            uri_host = o_ascii_lower(dec)
     elif k < 0.93:
         good = rng.random() < 0.7
         inner = rng.choice(IP6_FORMS) if good else rng.choice(IP6_BAD)
@@ -659,6 +877,11 @@ def gen_structured_text(rng):
             if any(c in z for c in "\t\r\n"):
                 unmodelled = True
             defects.append(("MalformedUrlError", "zone identifier %r cannot stand in a URI" % z))
+        if rng.random() < 0.12:
+            inner2 = confuse(rng, inner, rng.choice([1, 1, 2]), keep="%")
+            if inner2 != inner:
+                inner = inner2
+                defects.append(("MalformedUrlError", "look-alike character in the IP literal"))
         host_txt = "[" + inner + "]"
         if not good:
             defects.append(("MalformedUrlError", "invalid IP literal"))
@@ -680,6 +903,10 @@ def gen_structured_text(rng):
     elif k < 0.8:
         port = rng.choice([0, 1, 80, 5683, 5684, 65535, rng.randrange(65536)])
         port_txt = ":" + ("0" * rng.choice([0, 0, 0, 1, 3])) + str(port)
+        if rng.random() < 0.06:
+            port_txt = ":" + rng.choice([confuse(rng, port_txt[1:], rng.choice([1, 1, 5])),
+                                         rng.choice(UNI_SPACES) + port_txt[1:], port_txt[1:] + rng.choice(UNI_SPACES)])
+            defects.append(("MalformedUrlError", "port not a number in 0..65535"))
     elif k < 0.86:
         port_txt = ":"
     else:
@@ -738,31 +965,49 @@ def gen_structured_text(rng):
         frag_txt = "#" + rng.choice(["f", "frag/x?y", "%41"])
         defects.append(("MalformedUrlError", "fragment"))
     elif k < 0.09:
-        frag_txt = "#"
+        frag_txt = "#"                     # the empty fragment identifier is one (RFC 3986 §3.5)
+        defects.append(("MalformedUrlError", "fragment"))
     # scheme defects
     k = rng.random()
     prefix = scheme_txt + "://"
+    scheme_confused = False
     if k < 0.05:
         prefix = "//"
         defects = [d for d in defects if d[1] == "fragment"]
-        # (an invalid bracketed host already fails in the URI splitter: either class)
-        cls = None if "[" in host_txt or "]" in host_txt else "IncompleteUrlError"
-        defects.append((cls, "no scheme") if not frag_txt.strip("#")
+        # (an invalid bracketed host already fails in the URI splitter: either class; so does an authority
+        # that fails its NFKC check)
+        cls = None if "[" in host_txt or "]" in host_txt or nfkc_hits_delimiter(host_txt + port_txt) \
+            else "IncompleteUrlError"
+        defects.append((cls, "no scheme") if not frag_txt
                        else ("MalformedUrlError", "fragment"))
         defects = defects[-1:]
     elif k < 0.08:
         prefix = scheme_txt + ":"
-        defects = [("MalformedUrlError", "no host")] if not frag_txt.strip("#") else \
+        defects = [("MalformedUrlError", "no host")] if not frag_txt else \
             [("MalformedUrlError", "fragment")]
+    elif k < 0.11:
+        c2 = confuse(rng, scheme_txt, rng.choice([1, 1, 2]), keep="+")
+        if c2 != scheme_txt:
+            prefix = c2 + "://"
+            scheme_confused = True
     text = prefix + ui_txt + host_txt + port_txt + path_txt + query_txt + frag_txt
     if not prefix.endswith("//") and (ui_txt + host_txt + port_txt + path_txt).startswith("//"):
         unmodelled = True                  # the path's empty first segment is read as "//authority"
         prefix = prefix + "//"
-    if rng.random() < 0.04:
+    lead_uni = False
+    k = rng.random()
+    if k < 0.04:
         text = rng.choice([" ", "\x00 ", "\x1f"]) + text
-    if any(ord(c) < 0x21 for c in text) or any(ord(c) > 127 for c in ui_txt + host_txt + port_txt):
-        unmodelled = True                  # sanitising / non-ASCII netloc: no structural expectation
-    if prefix in ("//",) or prefix.endswith(":") and not prefix.endswith("//"):
+    elif k < 0.055:
+        # Unicode white space / format characters are not stripped (urlsplit strips C0 and space only)
+        text = rng.choice([c for c in UNI_SPACES if ord(c) > 32]) + text
+        lead_uni = True
+    if any(ord(c) < 0x21 for c in text):
+        unmodelled = True                  # sanitising: no structural expectation
+    if scheme_confused or lead_uni:
+        # a scheme is ASCII (RFC 3986 §3.1): this text has none, or it is not a URI at all
+        expect = ("reject", None, "look-alike character in / non-ASCII character ahead of the scheme")
+    elif prefix in ("//",) or prefix.endswith(":") and not prefix.endswith("//"):
         expect = ("reject", defects[0][0], defects[0][1])
     elif unmodelled:
         expect = None
@@ -774,7 +1019,8 @@ def gen_structured_text(rng):
     return text, expect
 
 
-ARB_ALPHABET = ":/?#[]@%&=+.-~ \t\n" + "coapstcws" + "0123456789" + "AZaz" + "é中\U0001f600" + "\x00\x7f%%%::://"
+ARB_ALPHABET = (":/?#[]@%&=+.-~ \t\n" + "coapstcws" + "0123456789" + "AZaz" + "é中\U0001f600" + "\x00\x7f%%%::://"
+                + "\u0661\u0664\uff11\u00b2\uff1a\uff0f\uff0e\u2100\u212a\u0130\u00a0\u2028\uff3b\uff3d\uff20\uff03\uff05")
 VALID_SEEDS = ["coap://h/", "coap://example.com:5683/a/b?c=d&e", "coaps://[2001:db8::1]:5684/x",
                "coap+tcp://1.2.3.4/%C3%A5?%26", "coap://[fe80::1%25eth0]/", "coaps+ws://h.example/.well-known/core?rt=x",
                "http://example.com/x", "urn:x:y", "coap://h:1/a//b/?&"]
@@ -835,11 +1081,26 @@ BOUNDARY_TEXTS = [
 ]
 
 
+# texts on which a constructor that tests its argument for truth, strips it, or compares it with a default
+# would go another way than set_request_uri
+ENTRY_POINT_TEXTS = ["", " ", "\x00", "\t", "\n", "0", "None", "False", "\u00a0", "\u3000", "\ufeff", "coap://h", "coap://h/ ",
+                     " coap://h/", "coap://h/\u00a0", "\u2028coap://h/", "http://h/", "urn:x", ":", "#", "//", "?"]
+
+
 def boundary_expectations():
     """texts with the expectation the property text and RFC 3986 §3.2.2 give, enumerated in full"""
     out = []
     acc = lambda host, port=None, path=(), query=(): ("accept", "coap", host, port, list(path), list(query))
     rej = lambda why: ("reject", "MalformedUrlError", why)
+    # a "#" is a fragment identifier also when nothing follows it (RFC 3986 §3.5: *( pchar / "/" / "?" ))
+    for t in ["coap://h/a#", "coap://h/#", "coap://h#", "coap://h/a?b#", "coap://h?#", "coap://[::1]#",
+              "coap://h:7#", "coap://h/a#b", "coap://h/a##", "coaps+ws://h/a/#", "coap://1.2.3.4/#",
+              "http://example.com/x#", "http://example.com/x#f", "coap:#", "coap://#", "//h/a#"]:
+        out.append((t, rej("fragment")))
+    for t in ["#", "#f", "h#", "/a#"]:
+        out.append((t, ("reject", None, "fragment / no scheme")))
+    out.append(("coap://h/a%23", acc("h", None, ["a#"])))
+    out.append(("coap://h/?%23", acc("h", None, [], ["#"])))
     # dec-octet boundaries, at every position of the quad
     for v in DEC_OCTET_EDGES:
         for pos in range(4):
@@ -920,7 +1181,7 @@ def run_resources(env, rep, impl, resources):
     return texts
 
 
-def run_texts(env, rep, impl, items, stream, feedback=True):
+def run_texts(env, rep, impl, items, stream, feedback=True, entry_points="sample"):
     """items: (text, expect).  S and P lines, oracle; the implementation's recomposed URI is
     fed back once (normal forms must be fixed points)."""
     lines, outs, cases = [], [], []
@@ -940,6 +1201,13 @@ def run_texts(env, rep, impl, items, stream, feedback=True):
         v = oracle_text(impl, text, expect)
         if v:
             rep.oracle_fail(case, v, key=oracle_key(v))
+        if entry_points == "all" or len(cases) % 5 == 0:
+            v = oracle_entry_points(impl, text)
+            rep.count("entry-points:" + kind.split(":")[0])
+            if v:
+                rep.oracle_fail(case, v, key=oracle_key(v))
+        if any(ord(c) > 127 for c in text.partition("://")[2].partition("/")[0]):
+            rep.count("%s:raw-non-ascii-authority:%s" % (stream, kind.split(":")[0]))
         if back is not None and back != text:
             backs.append((back, None))
         # urlsplit correspondence
@@ -974,6 +1242,7 @@ def oracle_key(v):
                         ("rejected a well-formed", "wellformed-rejected"),
                         ("expected", "decompose-differs-from-rfc"),
                         ("set for an IP literal", "decompose-differs-from-rfc"),
+                        ("entry points differ", "entry-points-differ"),
                         ("get_request_uri() after", "compose-raises")):
         if marker in v:
             return key
@@ -1049,7 +1318,11 @@ def lib_correspondence(env, rep, impl):
     # --- hostportjoin / hostportsplit
     lines, outs, cases = [], [], []
     hosts = ["h", "example.com", "EXAMPLE.com", "1.2.3.4", "::1", "[::1]", "2001:db8::1", "fe80::1%eth0",
-             "[fe80::1%ETH0]", "a%41", "ex%41MPLE", "", "[", "]", "[]", "a:b", "[a", "a]"]
+             "[fe80::1%ETH0]", "a%41", "ex%41MPLE", "", "[", "]", "[]", "a:b", "[a", "a]",
+             # raw non-ASCII names (the model's H line abstains; the oracle's round trip does not: a name that
+             # str.lower() leaves alone comes back as it was)
+             "\u00e9", "stra\u00dfe", "\ufb01sh", "\u0661.\u0662.\u0663.\u0664", "1.2.3.\u0664", "\u0131", "\u03c3\u03c2",
+             "a\u00a0b", "\uff11\uff12", "\u00b2", "\u2460", "\u017f", "e\u0301", "\u4e2d\u6587", "\U0001f600", "\u212a", "\u0130"]
     ports = [None, 0, 1, 80, 5683, 65535, 65536, 100000]
     for h in hosts:
         for p in ports:
@@ -1074,6 +1347,9 @@ def lib_correspondence(env, rep, impl):
     splits = [impl.util.hostportjoin(h, p) for h in hosts for p in ports] + [
         "h:", "h:abc", "h:1:2", ":80", "[::1]:", "[::1]:x", "[::1]x:7", "u@h:1", "@h", "a@b@[::1]:9",
         "[::1", "::1", "h:065535", "h:65536", "H:1", "[FE80::1%ETH0]:1", "ex%41MPLE:1", "h: 1", "h:+1"]
+    # ports written with look-alikes of digits / with Unicode white space around them: no port is a number but
+    # one of ASCII digits (int() and str.isdigit() think otherwise)
+    splits += [t % ch for ch in UNI_DIGITS + UNI_SPACES for t in ("h:%s", "h:1%s", "h:%s1", "[::1]:%s", "1.2.3.4:8%s")]
     for _ in range(env.scale(1500, 20000)):
         splits.append("".join(rng.choice("ah.:[]@%0159Z") for _ in range(rng.choice([1, 3, 6, 10]))))
     for hp in splits:
@@ -1087,7 +1363,27 @@ def lib_correspondence(env, rep, impl):
         cases.append(c)
         rep.case(c, nontrivial=True)
         rep.count("H")
+        # oracle: whatever follows the colon after the host must be ASCII digits (or nothing)
+        if outs[-1] != "err":
+            port_txt = o_port_text(hp)
+            if port_txt and not re.fullmatch("[0-9]+", port_txt):
+                rep.oracle_fail(c, "hostportsplit(%r) = %s: the port %r is not a number" % (hp, outs[-1], port_txt),
+                                key="hostport-bad-port-accepted")
     compare(env, rep, cases, lines, outs, what="hostport")
+    # --- the two facts about this interpreter's Unicode tables that the model relies on
+    delim = re.compile("[/?#@:]")
+    every = "".join(map(chr, range(128, 0xD800))) + "".join(map(chr, range(0xE000, 0x110000)))
+    # (a character without a decomposition mapping is its own NFKC form)
+    table = {ord(ch) for ch in every if unicodedata.decomposition(ch)
+             and delim.search(unicodedata.normalize("NFKC", ch))}
+    if table != NFKC_DELIMS:
+        raise HarnessError("unicodedata %s: code points whose NFKC form holds / ? # @ : differ from the model's "
+                           "table by %r" % (unicodedata.unidata_version, sorted(table ^ NFKC_DELIMS)))
+    # (lower-casing a text is lower-casing its characters, but for the shape of a final sigma)
+    if re.search("[0-9.]", every.lower()) or (env.thorough and not all(ch.lower() for ch in every)):
+        raise HarnessError("str.lower() turns a non-ASCII character into nothing, an ASCII digit or a dot: the "
+                           "model's .hostname is not faithful")
+    rep.count("unicode-tables-checked")
     # --- IPv6 normalisation (the oracle of the model) against ipaddress
     import ipaddress
     lines, outs, cases = [], [], []
@@ -1153,8 +1449,18 @@ def run(env, rep):
     run_texts(env, rep, impl, [(t, None) for t in lean_texts], "composed", feedback=False)
 
     # URI -> options -> URI: corpus, boundary table, structured texts
-    run_texts(env, rep, impl, corpus_texts + [(t, None) for t in BOUNDARY_TEXTS] + boundary_expectations(),
-              "boundary")
+    run_texts(env, rep, impl, corpus_texts + [(t, None) for t in BOUNDARY_TEXTS] + boundary_expectations()
+              + [(t, None) for t in ENTRY_POINT_TEXTS], "boundary", entry_points="all")
+    run_texts(env, rep, impl, boundary_confusables(), "confusable")
+    # the model's NFKC table against urlsplit, character by character: the table and its neighbours (thorough:
+    # every code point of the BMP and a sample of the rest) as the only / an inner character of an authority
+    cps = {cp + d for cp in NFKC_DELIMS for d in (-1, 0, 1)}
+    if env.thorough:
+        cps |= set(range(128, 0xD800)) | set(range(0xE000, 0x10000)) | set(rng.sample(range(0x10000, 0x110000), 20000))
+    run_texts(env, rep, impl, [(t % chr(cp), None) for cp in sorted(cps)
+                               for t in ("coap://%s/", "coap://a%sb:1/x", "//%s")], "nfkc", feedback=False)
+    if rep.hist.get("confusable:raw-non-ascii-authority:ok", 0) < 1000:
+        raise HarnessError("the look-alike table produced too few accepted raw non-ASCII hosts")
     structured = [gen_structured_text(rng) for _ in range(env.scale(20000, 250000))]
     for _, e in structured:
         rep.count("structured:expect=" + (e[0] if e else "none"))
@@ -1182,7 +1488,8 @@ def replay(env, case):
     k = case.get("kind")
     if k == "T":
         exp = case.get("expect")
-        return oracle_text(impl, case["text"], tuple(exp) if exp else None)
+        return oracle_text(impl, case["text"], tuple(exp) if exp else None) or \
+            oracle_entry_points(impl, case["text"])
     if k == "R":
         return oracle_resource(impl, case)
     if k == "Q":
@@ -1192,6 +1499,16 @@ def replay(env, case):
         got = fn(s)
         if got != urllib.parse.quote(s, safe=safe) or o_pct_decode(got) != s:
             return "quote for %s of %r is %r" % (case["set"], s, got)
+        return ""
+    if k == "H":
+        hp = case["hostport"]
+        try:
+            got = impl.util.hostportsplit(hp)
+        except ValueError:
+            return ""
+        port_txt = o_port_text(hp)
+        if port_txt and not re.fullmatch("[0-9]+", port_txt):
+            return "hostportsplit(%r) = %r: the port %r is not a number" % (hp, got, port_txt)
         return ""
     if k == "J":
         j = impl.util.hostportjoin(case["host"], case["port"])
